@@ -171,6 +171,22 @@ def _div(a, b):
     return rat(a) / rat(b)
 
 
+def bshape(*shapes):
+    """numpy broadcasting of shapes; ValueError (as numpy) when they do not broadcast"""
+    n = max((len(s_) for s_ in shapes), default=0)
+    out = []
+    for i in range(n):
+        dims = {s_[len(s_) - n + i] for s_ in shapes if len(s_) - n + i >= 0} - {1}
+        if len(dims) > 1:
+            raise Raised("ValueError", None, "operands could not be broadcast together with shapes %s" % " ".join(map(str, shapes)))
+        out.append(dims.pop() if dims else 1)
+    return tuple(out)
+
+
+def _shape_of(o):
+    return tuple(o.shape) if isinstance(o, RawV) else ()
+
+
 class RawV(Model):
     """ndarray / number: an exact rational value (element-wise semantics), a dtype, and an identity (the buffer)"""
     kinds = ("ndarray",)
@@ -187,36 +203,44 @@ class RawV(Model):
         return rat(o.r if hasattr(o, "r") and isinstance(getattr(o, "r"), Rat) else o)
 
     def __mul__(self, o):
-        return RawV(self.r * self._v(o), "float64", self.shape)
+        return RawV(self.r * self._v(o), "float64", bshape(self.shape, _shape_of(o)))
 
     __rmul__ = __mul__
 
     def __truediv__(self, o):
-        return RawV(self.r / self._v(o), "float64", self.shape)
+        return RawV(self.r / self._v(o), "float64", bshape(self.shape, _shape_of(o)))
 
     def __add__(self, o):
-        return RawV(self.r + self._v(o), "float64", self.shape)
+        return RawV(self.r + self._v(o), "float64", bshape(self.shape, _shape_of(o)))
 
     def __sub__(self, o):
-        return RawV(self.r - self._v(o), "float64", self.shape)
+        return RawV(self.r - self._v(o), "float64", bshape(self.shape, _shape_of(o)))
 
     def __neg__(self):
         return RawV(-self.r, self.dtype, self.shape)
 
     # numpy arrays are updated in place by op=
     def __imul__(self, o):
+        if bshape(self.shape, _shape_of(o)) != tuple(self.shape):
+            raise Raised("ValueError", None, "non-broadcastable output operand with shape %s doesn't match the broadcast shape %s" % (self.shape, bshape(self.shape, _shape_of(o))))
         self.r = self.r * self._v(o)
         return self
 
     def __itruediv__(self, o):
+        if bshape(self.shape, _shape_of(o)) != tuple(self.shape):
+            raise Raised("ValueError", None, "non-broadcastable output operand with shape %s doesn't match the broadcast shape %s" % (self.shape, bshape(self.shape, _shape_of(o))))
         self.r = self.r / self._v(o)
         return self
 
     def __iadd__(self, o):
+        if bshape(self.shape, _shape_of(o)) != tuple(self.shape):
+            raise Raised("ValueError", None, "non-broadcastable output operand with shape %s doesn't match the broadcast shape %s" % (self.shape, bshape(self.shape, _shape_of(o))))
         self.r = self.r + self._v(o)
         return self
 
     def __isub__(self, o):
+        if bshape(self.shape, _shape_of(o)) != tuple(self.shape):
+            raise Raised("ValueError", None, "non-broadcastable output operand with shape %s doesn't match the broadcast shape %s" % (self.shape, bshape(self.shape, _shape_of(o))))
         self.r = self.r - self._v(o)
         return self
 
@@ -335,14 +359,17 @@ class UFunc(Model):
             dtype = "float64"
         else:
             raise Unsupported("np.%s is not in the model" % name)
+        rshape = bshape(*[_shape_of(a) for a in args])
         out = kwargs.get("out")
         if out:
             if len(out) != 1 or not isinstance(out[0], RawV):
                 raise Raised("TypeError", None, "'out' must be a tuple of arrays")
+            if bshape(rshape, tuple(out[0].shape)) != tuple(out[0].shape):
+                raise Raised("ValueError", None, "non-broadcastable output operand with shape %s doesn't match the broadcast shape %s" % (out[0].shape, rshape))
             out[0].r = res          # numpy writes into the buffer it is given
             out[0].dtype = DT(dtype)
             return out[0]
-        return RawV(res, dtype)
+        return RawV(res, dtype, rshape)
 
 
 def OUTER(x, y):
@@ -1143,6 +1170,16 @@ class CArr(Model):
     def __add__(self, o):
         return self._res([a + b for a, b in zip(self.vals, self._other(o))], o, "+")
 
+    __radd__ = __add__
+
+    def __eq__(self, o):
+        return CArr([a == b for a, b in zip(self.vals, self._other(o))], "bool")
+
+    def __ne__(self, o):
+        return CArr([a != b for a, b in zip(self.vals, self._other(o))], "bool")
+
+    __hash__ = None
+
     def __iadd__(self, o):
         r = self.__add__(o)
         if repr(r.dtype) != repr(self.dtype) and self._name() in ("bool", "int64") and r._name().startswith("float"):
@@ -1205,7 +1242,9 @@ def check_norm_corner_cases(run, tree):
     cases = [("rows (3,4,0) and (0,0,0), float", [[3.0, 0.0], [4.0, 0.0], [0.0, 0.0]], "float64", [5.0, 0.0]),
              ("rows (0,0) and (6,8), 2 components", [[0.0, 6.0], [0.0, 8.0]], "float64", [0.0, 10.0]),
              ("boolean components (a != b of two Vectors)", [[True, False, False], [False, False, True], [False, False, False]], "bool", [1.0, 0.0, 1.0]),
-             ("integer components", [[3, 0], [4, 0], [0, 0]], "int64", [5.0, 0.0])]
+             ("integer components", [[3, 0], [4, 0], [0, 0]], "int64", [5.0, 0.0]),
+             # an infinite component (a sentinel position, a diverged velocity): the norm is infinite, not nan - |a|^2 == a.a still holds
+             ("rows (inf,1,0), (-inf,inf,2) and (3,4,0)", [[float("inf"), float("-inf"), 3.0], [1.0, float("inf"), 4.0], [0.0, 2.0, 0.0]], "float64", [float("inf"), float("inf"), 5.0])]
     for label, comps, dtype, want in cases:
         construct = "%s.norm[%s]" % (VECTOR_Q, label)
         try:
@@ -1217,6 +1256,9 @@ def check_norm_corner_cases(run, tree):
                               "numpy.maximum.reduce": lambda xs, *a, **k: CArr([max(col) for col in zip(*[x.vals for x in xs])], xs[0].dtype),
                               "numpy.maximum": lambda a, b, *r, **k: CArr([max(p, q) for p, q in zip(a.vals, b.vals)], a.dtype),
                               "numpy.hypot": lambda a, b, *r, **k: CArr([(float(p) ** 2 + float(q) ** 2) ** 0.5 for p, q in zip(a.vals, b.vals)]),
+                              "numpy.where": lambda c, a, b: CArr([(x if t else y) for t, x, y in zip(c.vals, a.vals if isinstance(a, CArr) else [a] * len(c.vals), b.vals if isinstance(b, CArr) else [b] * len(c.vals))],
+                                                                  (a if isinstance(a, CArr) else b).dtype if isinstance(a, CArr) or isinstance(b, CArr) else "float64"),
+                              "numpy.isfinite": lambda x: CArr([v == v and abs(v) != float("inf") for v in x.vals], "bool"),
                               "numpy.errstate": lambda **k: _NullCtx()})
             ci = tree.cls(ARRAY_Q)
             ev = ModelEval(tree, tree.method(ci, "__init__"), {}, hk)
@@ -1226,7 +1268,7 @@ def check_norm_corner_cases(run, tree):
                 out = ModelEval(tree, m, {}, hk).obj_getattr(v, "norm")
                 vals = out._attrs.get("_array") if isinstance(out, PyObj) else out
                 got = [float(x) for x in vals.vals] if isinstance(vals, CArr) else vals
-                ok = isinstance(got, list) and len(got) == len(want) and all((g == g) and abs(g - w) < 1e-3 for g, w in zip(got, want))
+                ok = isinstance(got, list) and len(got) == len(want) and all((g == g) and (g == w or abs(g - w) < 1e-3) for g, w in zip(got, want))
                 detail = "norm = %s (required %s)" % (got, want)
             except (Raised, ProgramRaised) as e:
                 ok, detail = False, "raises %s" % e
@@ -1548,3 +1590,104 @@ def check_array_norm_identity(run, tree):
         run.ob(construct, ok, m.where(), detail, "a scalar layer with negative values (a velocity component, a potential) is mapped as its absolute value")
     except ERR as e:
         run.unresolved(construct, ARRAY_Q, "cannot fold: %s" % e)
+
+
+def check_vector_lifting_stack(run, tree):
+    """C09 end to end: `v op y` on a Vector is, component by component, what `v.c op y` gives on the component Arrays - the same values and
+    units, or the same refusal - for y a python 0, a python number, an Array, a Quantity, in compatible and incompatible units"""
+    vfi = tree.func("core/vector.py::_binary_op")
+    run.analysed(vfi)
+    OPS = (("+", "__add__"), ("-", "__sub__"), ("*", "__mul__"), ("/", "__truediv__"), ("<", "__lt__"), (">", "__gt__"), ("==", "__eq__"))
+    RHS = (("python 0", lambda hk: 0), ("python 0.0", lambda hk: 0.0), ("python 2.5", lambda hk: 2.5), ("Array [cm]", lambda hk: arr(tree, hk, "B", "cm")),
+           ("Array [s]", lambda hk: arr(tree, hk, "B", "s")), ("Quantity [cm]", lambda hk: QQ(RawV(Poly.sym("Q")), UU.parse("cm"))), ("Quantity 3 s", lambda hk: QQ(3.0, UU.parse("s"))))
+
+    def outcome(fn):
+        try:
+            r = fn()
+        except (Raised, ProgramRaised) as e:
+            return ("raises", getattr(e, "name", str(e)))
+        if isinstance(r, Marker) and r.kind == "builtin" and r.data and r.data[0] == "NotImplemented":
+            return ("raises", "TypeError")
+        return ("value", r)
+
+    def describe(o):
+        if o[0] == "raises":
+            return "raises " + o[1]
+        a = o[1]
+        v = a._attrs.get("_array")
+        return "%r [%r]" % (v.r if isinstance(v, RawV) else v, a._attrs.get("_unit"))
+
+    for sym, dunder in OPS:
+        if sym == "/":
+            rhs_list = [r for r in RHS if not r[0].startswith("python 0")]
+        else:
+            rhs_list = RHS
+        construct = "core/vector.py::Vector[v [m] %s y agrees with the components]" % sym
+        problems, unres = [], None
+        for label, mk in rhs_list:
+            try:
+                hk = stack_hooks(tree)
+                v = vec(tree, hk, "V", "m")
+                y = mk(hk)
+                whole = outcome(lambda: binop(tree, hk, v, dunder, y))
+                hk2 = stack_hooks(tree)
+                v2 = vec(tree, hk2, "V", "m")
+                y2 = mk(hk2)
+                parts = {c: outcome(lambda a=a: binop(tree, hk2, a, dunder, y2)) for c, a in comps_of(tree, hk2, v2).items()}
+                if whole[0] == "raises":
+                    if not all(p == whole for p in parts.values()):
+                        problems.append("y = %s: the Vector %s but the components give %s" % (label, describe(whole), {c: describe(p) for c, p in parts.items()}))
+                    continue
+                if not (isinstance(whole[1], PyObj) and whole[1]._cls.qual == VECTOR_Q):
+                    problems.append("y = %s: returns %r" % (label, whole[1]))
+                    continue
+                got = comps_of(tree, hk, whole[1])
+                for c, p in parts.items():
+                    g = got.get(c)
+                    same = p[0] == "value" and g is not None and isinstance(g._attrs.get("_array"), RawV) and g._attrs["_array"].r == p[1]._attrs["_array"].r and g._attrs.get("_unit") == p[1]._attrs.get("_unit")
+                    if not same:
+                        problems.append("y = %s: component %s of the Vector result is %s but v.%s %s y %s" % (label, c, describe(("value", g)) if g is not None else "missing", c, sym, describe(p)))
+                        break
+            except ERR as e:
+                unres = "y = %s: %s" % (label, e)
+        if unres and not problems:
+            run.unresolved(construct, vfi.where(), "cannot fold: %s" % unres)
+            continue
+        run.ob(construct, not problems, vfi.where(), "; ".join(problems[:2]) or "same values, units and refusals as the component Arrays for %d operand kinds" % len(rhs_list),
+               "v %s y and (v.x %s y, v.y %s y, ...) disagree for some operand kind: one converts or accepts what the other refuses (a bare 0 against a length)" % (sym, sym, sym))
+
+
+def check_dot_shapes(run, tree):
+    """Vector.dot / cross on operands of different rank: (2,3) . (3,), (3,) . (2,3), (2,3) . () broadcast like the component products do"""
+    vi = tree.cls(VECTOR_Q)
+    m = tree.method(vi, "dot")
+    run.analysed(m)
+    km, kcm = rat(Poly.sym("k_m")), rat(Poly.sym("k_cm"))
+
+    def mk(hk, tag, unit, shape):
+        comps = {c: arr(tree, hk, tag + c, unit, shape=shape) for c in "xyz"}
+        return ModelEval(tree, tree.method(vi, "__init__"), {}, hk).instantiate(vi, [], dict(comps), None)
+    for sa_, sb_ in (((2, 3), (3,)), ((3,), (2, 3)), ((2, 3), ()), ((4, 2, 3), (2, 3)), ((1, 4), (4,)), ((2, 5), (5,)), ((3,), (3,))):
+        construct = "%s.dot[shapes %s . %s]" % (VECTOR_Q, sa_, sb_)
+        try:
+            hk = stack_hooks(tree)
+            a, b = mk(hk, "A", "m", sa_), mk(hk, "B", "cm", sb_)
+            want_shape = bshape(sa_, sb_)
+            want = rat(0)
+            for c in "xyz":
+                want = want + rat(Poly.sym("A" + c)) * km * rat(Poly.sym("B" + c)) * kcm
+            try:
+                r = ModelEval(tree, m, {}, hk).invoke(m, [a, b], {}, None)
+                v = r._attrs.get("_array") if isinstance(r, PyObj) else None
+                ok = isinstance(v, RawV) and tuple(v.shape) == want_shape and phys(r) == want
+                detail = "shape %s, denotes %r (required shape %s, %r)" % (getattr(v, "shape", None), phys(r) if isinstance(r, PyObj) else r, want_shape, want)
+            except (Raised, ProgramRaised) as e:
+                ok, detail = tuple(sa_) != want_shape and len(sa_) < len(sb_) and False, "raises %s" % e
+                # the accumulator has the shape of the LEFT operand: a left operand of lower rank cannot hold the broadcast result (numpy refuses);
+                # that is the behaviour of the pinned code and is reported as what it is
+                if bshape(sa_, sb_) != tuple(sa_):
+                    run.holds(construct, m.where(), "refused (%s): the left operand has the lower rank" % getattr(e, "name", e), nontrivial=False)
+                    continue
+            run.ob(construct, ok, m.where(), detail, "a . b with b of lower rank than a ((2,3) . (3,)) raises although every component product broadcasts")
+        except ERR as e:
+            run.unresolved(construct, m.where(), "cannot fold: %s" % e)
